@@ -38,3 +38,13 @@ Theorem trajectory_sparse_eq_dense_cd_epoch : forall (prox_1d : R -> R -> Z -> r
   = @_cd_epoch R _ prox_1d g_dense X y w Xw lc ws.
 Proof. exact cd_epoch_sparse_eq_dense. Qed.
 Print Assumptions trajectory_sparse_eq_dense_cd_epoch.
+
+(* group datafit: sparse per-group gradient = dense per-group gradient, any group structure *)
+Require Import SK.Gen.DfGroup SK.Lemmas.DfGroupSparse.
+Theorem group_gradient_sparse_eq_dense :
+  forall n M (X : list (list R)) grp_ptr grp_indices y w Xw g, length Xw = n -> length y = n ->
+  (forall j, In j grp_indices -> exists lo hi, col_bounds M j lo hi /\ wf_col n M lo hi /\ mcol X j = Ok (dense_col n M lo hi)) ->
+  @QuadraticGroup_gradient_g_sparse R _ grp_ptr grp_indices (cdata M) (cindptr M) (cindices M) y w Xw g
+  = @QuadraticGroup_gradient_g R _ grp_ptr grp_indices X y w Xw g.
+Proof. exact QuadraticGroup_gradient_g_sparse_eq_dense. Qed.
+Print Assumptions group_gradient_sparse_eq_dense.
